@@ -100,8 +100,17 @@ def f_autoincrement(sess, tier):
     _rec(sess, "fact:C07/every-stored-class-keys-on-the-base-row", not bad, "classes without FK primary key: %s" % bad)
 
 
+def f_versions(sess, tier):
+    """C16: the supported-version list is exactly 1.0-2.0, newest first."""
+    from . import dbmodel
+    vs = [(v.major, v.minor) for v in dbmodel.protocol_versions()]
+    _rec(sess, "fact:C16/supported-versions-are-the-six-newest-first",
+         vs == [(2, 0), (1, 4), (1, 3), (1, 2), (1, 1), (1, 0)], "self._protocol_versions = %r" % (vs,))
+
+
 def units(names, ctx):
-    table = {"lock": f_lock, "state_frame": f_state_frame, "autoincrement": f_autoincrement}
+    table = {"lock": f_lock, "state_frame": f_state_frame, "autoincrement": f_autoincrement,
+             "versions": f_versions}
     out = []
     for nm in names:
         f = table[nm]
